@@ -74,6 +74,29 @@ def m0_stateful_iterator(f):
                 if is_src and lp.get('line', 0) < nexts[0].get('line', 0) and result_from_next and nexts[0].get('parent') == 'try':
                     return True
             continue
+        if not finds and len(nexts) == 2 and not others and not floops:
+            # `loop { match it.next() { None => return None, Some(c) if c == "src" => break, Some(_) => continue } }` then `it.next()?`
+            in_loop = [c for c in nexts if any(fr.get('k') in ('loop', 'while') for fr in c.get('guard', []))]
+            after = [c for c in nexts if not any(fr.get('k') in ('loop', 'while', 'for') for fr in c.get('guard', []))]
+            if len(in_loop) == 1 and len(after) == 1 and in_loop[0].get('line', 0) < after[0].get('line', 0):
+                lline = next(fr.get('line') for fr in in_loop[0]['guard'] if fr.get('k') in ('loop', 'while'))
+                ctl = [x for x in f['loops'] if x.get('ctl') and any(fr.get('k') in ('loop', 'while') and fr.get('line') == lline for fr in x.get('guard', []))]
+                brk = [x for x in ctl if str(x['ctl']).strip().startswith('break')]
+
+                def src_test(frames):
+                    for fr in frames:
+                        for cand in (fr.get('c'), fr.get('guard')):
+                            cv = vt.unvar(cand) if isinstance(cand, dict) else None
+                            if isinstance(cv, dict) and cv.get('k') == 'op' and cv.get('op') == '==' and any(isinstance(vt.strip(a), dict) and vt.strip(a).get('k') == 'lit' and vt.strip(a).get('v') == 'src' for a in cv.get('args', [])):
+                                return not fr.get('neg')
+                    return False
+                rets = [r for r in f.get('returns', []) if any(fr.get('k') in ('loop', 'while') and fr.get('line') == lline for fr in r.get('guard', []))]
+                rets_none = all(isinstance(vt.unvar(r.get('v')), dict) and vt.unvar(r['v']).get('k') == 'none' for r in rets)
+                body_calls = [c for c in f['calls'] if any(fr.get('k') in ('loop', 'while') and fr.get('line') == lline for fr in c.get('guard', [])) and c is not in_loop[0]]
+                result_from_next = any(x.get('k') == 'call' and x.get('f') == 'next' and x.get('recv') is not None and on_it(x['recv']) for x in vt.walk(f.get('tail') or {}))
+                if len(brk) == 1 and src_test(brk[0].get('guard', [])) and rets_none and not body_calls and result_from_next and after[0].get('parent') == 'try':
+                    return True
+            continue
         if len(finds) != 1 or len(nexts) != 1 or others:
             continue
         clo = vt.unvar(finds[0]['args'][0]) if finds[0].get('args') else None
